@@ -12,7 +12,7 @@ ROOT = os.path.dirname(os.path.dirname(os.path.abspath(__file__)))
 CRATE = os.path.join(ROOT, 'replay')
 SEARCHES = {'C01': 'codec_search', 'C02': 'codec_search', 'C03': 'codec_search', 'C04': 'codec_search',
             'C08': 'block_search', 'C09': 'block_search', 'C10': 'block_search', 'C11': 'block_search', 'C12': 'block_search', 'C14': 'observe_search', 'C15': 'observe_search',
-            'C05': 'text_search C05', 'C06': 'text_search C06', 'C16': 'text_search C16', 'C17': 'text_search C17', 'C18': 'text_search C18', 'C19': 'text_search C19', 'C20': 'cache_search'}
+            'C05': 'text_search C05', 'C06': 'text_search C06', 'C07': 'text_search C07', 'C16': 'text_search C16', 'C17': 'text_search C17', 'C18': 'text_search C18', 'C19': 'text_search C19', 'C20': 'cache_search'}
 
 
 def _crate_for(repo):
